@@ -41,7 +41,7 @@ ASSUME = [
     "not rational); np.std is stated as variance",
 ]
 RULE = ("operation sequences over the 28-operation language of Model.Heap: exhaustive over a 16-letter alphabet "
-        "after a fixed 7-operation prefix (all sequences up to the tier's length), plus random sequences of length "
+        "after a fixed 8-operation prefix (all sequences up to the tier's length), plus random sequences of length "
         "<= 40 over all five droplet classes; distinct = distinct operation sequences; non-trivial = the sequence "
         "contains at least one operation that succeeds and changes a collection")
 
@@ -163,6 +163,7 @@ DUMMY = (0, (), 0.0, ())
 class World:
     def __init__(self):
         self.H, self.E, self.T, self.K, self.A, self.L = [], [], [], [], [], []
+        self.Asrc = []       # emulsion each linked array came from (generator bookkeeping only)
 
     # -- execution -------------------------------------------------------------------
     def apply(self, op):
@@ -241,6 +242,7 @@ class World:
             return ("RemoveOverlap", op[1], tuple(removed))
         elif n == "Link":
             A.append(E[op[1]].get_linked_data())
+            self.Asrc.append(op[1])
         elif n == "WriteA":
             arr = A[op[1]]
             if op[2] >= len(arr):
@@ -570,9 +572,10 @@ def caselit(done, obs, start=None):
 # ---------------------------------------------------------------------------------------
 VA = (0, (0.0, 0.0), 1.0, ())               # SphericalDroplet, 2d
 VB = (1, (1.0, 2.0), 2.0, (0.5,))           # DiffuseDroplet, 2d
-PREFIX = [("New", VA), ("New", VB), ("EmNew",), ("Append", 0, 0, True, False), ("Append", 0, 0, True, False),
-          ("TcNew", (0,), None), ("TrNew", (0,), None)]
-# after PREFIX: H = [A, B]; E[0] = [A', A''] (dtype spherical 2d); T[0] = [E[1]]; K[0] = [A''']
+VC = (0, (3.0, 0.5), 1.5, ())               # SphericalDroplet, 2d
+PREFIX = [("New", VA), ("New", VB), ("New", VC), ("EmNew",), ("Append", 0, 0, True, False),
+          ("Append", 0, 2, True, False), ("TcNew", (0,), None), ("TrNew", (0,), None)]
+# after PREFIX: H = [A, B, C]; E[0] = [copy of A, copy of C] (dtype spherical 2d); T[0] = [E[1]]; K[0] = [copy of A]
 ALPHABET = [
     ("SetH", 0, 2, 3.0),                    # caller mutates its own droplet
     ("Append", 0, 0, True, False),          # default flags
@@ -669,6 +672,14 @@ def _random_op_once(rng, w, classes, default_only, names, idx, flat_index):
     H, E, T, K, A, L = w.H, w.E, w.T, w.K, w.A, w.L
     if True:
         n = rng.choices(names, [WEIGHTS[x] for x in names])[0]
+        if A and rng.random() < 0.08 and len(H) < MAXTAB:
+            # operations on an emulsion whose data has been linked (merge after linking)
+            c = rng.choice(w.Asrc)
+            m = len(E[c])
+            if m:
+                i, j = rng.randrange(m), rng.randrange(m)
+                if float(E[c][i].data["radius"]) + float(E[c][j].data["radius"]) > 0:
+                    return ("Merge", c, i, j, rng.random() < 0.5, DUMMY)
         if n == "New":
             if len(H) >= MAXTAB:
                 return None
